@@ -107,7 +107,9 @@ def bar_rules(ctx: Ctx, explain: bool = False) -> None:
 
     # pad call
     pads = [n for n in walk_local(fi.node) if isinstance(n, ast.Call) and call_method(n)[1] == "pad"]
-    ctx.floor("pad call in Bar.__init__", len(pads), 1)
+    ctx.require("CAP", f"{FN}: a sequence shorter than the bar is padded", len(pads), 1, function=FN,
+                construct="Bar.__init__ never pads its sequence", message="a sequence shorter than the capacity stays short: the bar does not last its signature",
+                file=fi.file, node=fi.node)
     pad_fi = p.func("RelativeSequence.pad")
     pad_unit = units.infer_param_unit(p, pad_fi, pad_fi.params[1])
     for c in pads:
